@@ -152,6 +152,17 @@ import itertools
 ALLSHAPES = ["".join(t) for n in range(4) for t in itertools.product("mflo", repeat=n)]
 
 
+def source_sweep(rng, mk_terms, add, nts, nt1):
+    """every source kind with the empty chain and with one stage, for every terminal constructor"""
+    for src in ALLSRC:
+        for sh in ("", rng.choice("mflo")):
+            for mk in mk_terms:
+                p = gen_prog(rng, src=src, shape=sh, n=rng.choice([5, 8, 13]), nt=(1 if nt1 else rng.choice(nts)),
+                             cs=rng.choice([("cs", 1), ("cs", 2), ("csmin", 2), None]))
+                p["term"] = mk(rng, src, sh)
+                add(norm(p), "rand" if not nt1 else "free")
+
+
 def matrix(rng, tier, mk_terms, add, nts=(2, 3, 4), nt1=False, reps=1):
     """Systematic part of a profile (the rest is random): (a) every chain shape of length 0..3,
     (b) every kernel family x terminal constructor x chunk path (c = 1 / c > 1); thorough: the
@@ -178,10 +189,12 @@ def matrix(rng, tier, mk_terms, add, nts=(2, 3, 4), nt1=False, reps=1):
                 one(sh, mk_terms[(i + rep) % len(mk_terms)], rng.choice([1, 2, 3]))
         for f in sorted(fam):
             for mk in mk_terms:
-                for c in (1, rng.choice([2, 3])):
-                    one(rng.choice(fam[f]), mk, c)
+                for rep in range(3):
+                    for c in (1, rng.choice([2, 3])):
+                        one(rng.choice(fam[f]), mk, c)
                 # inputs of 0, 1 and 2 elements reach every kernel too
                 one_n(rng.choice(fam[f]), mk, rng.choice([1, 2]), rng.choice([0, 1, 1, 2]))
+        source_sweep(rng, mk_terms, add, nts, nt1)
     else:
         for rep in range(reps):
             for sh in ALLSHAPES:
@@ -193,15 +206,20 @@ def matrix(rng, tier, mk_terms, add, nts=(2, 3, 4), nt1=False, reps=1):
                 for n_ in (0, 1, 2, 3):
                     for c in (1, 2):
                         one_n(rng.choice(fam[f]), mk, c, n_)
+        for rep in range(4):
+            source_sweep(rng, mk_terms, add, nts, nt1)
 
 
 def lag_jobs(rng, tier, mk_terms, add):
     """More threads than one lag period (4) with Min / Auto chunks and enough input that the
     workers spawned first make progress before the spawning thread computes the next chunk size:
     the only way to reach the growth rule of next_chunk_size and workers with different chunk sizes."""
-    for i in range(24 if tier == "quick" else 240):
+    shapes = ["m", "f", "o", "l", "mf", "of", "lf", "", "oo", "mo", "fo", "ll"]
+    for i in range(36 if tier == "quick" else 360):
         src = rng.choice(("vec", "iter", "slice", "range", "vec"))
-        sh = rng.choice(["m", "f", "o", "l", "mf", "of", "lf", ""][: (8 if src in ("vec", "iter") else 4)])
+        sh = shapes[i % len(shapes)]
+        if len(sh) > SRC_MAXLEN[src] or (src in ("slice", "range") and len(sh) > 1):
+            src = "vec"
         p = gen_prog(rng, src=src, shape=sh, n=rng.choice([40, 64]), nt=rng.choice([6, 7, 8, 12, None]),
                      cs=rng.choice([("csmin", 1), ("csmin", 1), ("csmin", 2), ("csmin", 3), None]))
         p["term"] = mk_terms[i % len(mk_terms)](rng, src, shape_of(p))
